@@ -91,6 +91,11 @@ fn check(c: &Case) -> Verdict {
         }
         spins += 1;
     }
+    // no decode thread may outlive its case (its work and its failures belong to this case): wait for stragglers;
+    // a decode that never ends is cut off by the supervisor's timeout (inconclusive, worker restarted)
+    while let Some(h) = buf.sixel_threads.pop_front() {
+        let _ = h.join();
+    }
     let touched = buf.layers[0].lines.iter().any(|l| !l.chars.is_empty()) || caret.get_position() != icy_engine::Position::default() || buf.get_height() != c.h as i32;
     let nontrivial = lead_ins(c.emu, &c.data) >= 2 && touched;
     Verdict::pass(nontrivial, format!("{}{}", EMUS[c.emu as usize], if errs > 0 { "+err" } else { "" }))
@@ -113,8 +118,8 @@ fn main() {
          Non-trivial: the stream contains >= 2 control lead-in bytes of its emulation AND touched the screen (row allocated, cursor moved or height grew); distinct by hash of (emulation,size,shape,bytes).",
     );
     eng.assume("release profile semantics (overflow-checks off, debug-assertions off), as a user of the shipped crate sees it");
-    eng.assume("numeric parameters capped at 9999 here; magnitude-driven work is C03's subject; timeouts are counted as inconclusive, not as violations");
-    eng.generated_min(PartCfg::new("streams", 240_000, 6_000_000).isolated().timeout_ms(30_000), || cases(40), check, classify, minimize);
-    eng.generated_min(PartCfg::new("long_streams", 4_000, 150_000).isolated().timeout_ms(60_000), || cases(400), check, classify, minimize);
+    eng.assume("numeric parameters capped at 9999 here; magnitude-driven work is C03's subject; timeouts and heap-cap hits (2 GiB) are counted as inconclusive, not as violations (C03 owns time and memory)");
+    eng.generated_min(PartCfg::new("streams", 240_000, 6_000_000).isolated().timeout_ms(30_000).heapcap_is_violation(false), || cases(40), check, classify, minimize);
+    eng.generated_min(PartCfg::new("long_streams", 4_000, 150_000).isolated().timeout_ms(60_000).heapcap_is_violation(false), || cases(400), check, classify, minimize);
     eng.run();
 }
